@@ -5,6 +5,7 @@ import (
 	"regexp"
 	"strings"
 
+	of "github.com/contiv/libOpenflow/openflow13"
 	"github.com/contiv/libOpenflow/util"
 
 	"vh/fw"
@@ -286,4 +287,33 @@ func needKinds(a *fw.Agg, set string, sides ...string) error {
 		return fmt.Errorf("message kinds never observed in %q: %s", set, strings.Join(missing, ", "))
 	}
 	return nil
+}
+
+// retypeInstructions lists the ways the action-list instructions of a built flow-mod (top-level or inside a bundle
+// add) can be switched between write-actions, apply-actions and clear-actions after they were filled (an instruction
+// value reused as a template): each thunk applies one switch and returns a label.
+func retypeInstructions(v util.Message) []func() string {
+	fm, _ := v.(*of.FlowMod)
+	if ba, ok := v.(*of.BundleAdd); ok {
+		fm, _ = ba.Message.(*of.FlowMod)
+	}
+	if fm == nil {
+		return nil
+	}
+	var out []func() string
+	for i, in := range fm.Instructions {
+		ia, ok := in.(*of.InstrActions)
+		if !ok {
+			continue
+		}
+		for _, t := range []uint16{of.InstrType_WRITE_ACTIONS, of.InstrType_APPLY_ACTIONS, of.InstrType_CLEAR_ACTIONS} {
+			i, ia, t := i, ia, t
+			out = append(out, func() string {
+				from := ia.Type
+				ia.Type = t
+				return fmt.Sprintf("instruction %d (%d actions) switched from type %d to %d", i, len(ia.Actions), from, t)
+			})
+		}
+	}
+	return out
 }
